@@ -85,6 +85,13 @@ def poly(e, subst=None):
         for s_, n_ in ((l, r), (r, l)):
             if isinstance(s_, ast.Constant) and isinstance(s_.value, str) and len(s_.value) == 1:
                 return poly(n_, subst)
+    if isinstance(e, ast.Call) and isinstance(e.func, ast.Name) and e.func.id == "mul" and not e.keywords:
+        # operator.mul(a, b) / mul(*(a, b))
+        ops = list(e.args)
+        if len(ops) == 1 and isinstance(ops[0], ast.Starred) and isinstance(ops[0].value, (ast.Tuple, ast.List)):
+            ops = list(ops[0].value.elts)
+        if len(ops) == 2 and not any(isinstance(o, ast.Starred) for o in ops):
+            return _mul(poly(ops[0], subst), poly(ops[1], subst))
     if isinstance(e, ast.Call):
         args = ",".join(show(poly(a, subst)) if not isinstance(a, ast.Starred) else "*" + norm(a.value) for a in e.args)
         return {(f"{norm(e.func)}({args})",): 1}
